@@ -5,11 +5,13 @@ pid, wt = sys.argv[1], sys.argv[2]
 # optional third argument: a file with one line per change other engineers already proposed (taken from their own
 # notes, nothing about how or whether anything detects them)
 already = open(sys.argv[3]).read().strip() if len(sys.argv) > 3 else ""
+# optional fourth argument: a further hint on where to look (later rounds)
+extra_hint = sys.argv[4] if len(sys.argv) > 4 else ""
 p = [json.loads(l) for l in open('/verif/properties.jsonl') if l.strip()]
 p = [x for x in p if x['id'] == pid][0]
 ALREADY = ""
 if already:
-    ALREADY = "OTHER ENGINEERS HAVE ALREADY PROPOSED THE FOLLOWING CHANGES FOR THIS PROPERTY - propose DIFFERENT ones (another clause of the property, another code site, another kind of trigger; prefer multi-step sequences, specific concrete standard-library types or values that the code special-cases, faults at a particular point, and effects visible only outside a function's return values):\n" + already + "\n\n"
+    ALREADY = "OTHER ENGINEERS HAVE ALREADY PROPOSED THE FOLLOWING CHANGES FOR THIS PROPERTY - propose DIFFERENT ones (another clause of the property, another code site, another kind of trigger; prefer multi-step sequences, specific concrete standard-library types or values that the code special-cases, faults at a particular point, and effects visible only outside a function's return values" + ("; " + extra_hint if extra_hint else "") + "):\n" + already + "\n\n"
 print(f"""You are given a Go library (github.com/go-openapi/runtime: HTTP server middleware and client transport for Swagger/OpenAPI APIs) in a scratch git worktree at {wt} and ONE behavioural property of it. Your job is to write realistic changes to the library that BREAK this property while the library still compiles and ALL of its existing tests still pass — the kind of regression a plausible refactoring, optimisation or "fix" could introduce and a code review could miss.
 
 THE PROPERTY ({p['id']}: {p['title']})
